@@ -1,8 +1,9 @@
 ----------------------------- MODULE MC_Timers ------------------------------
 EXTENDS Timers
+\* (callbacks that keep the job thread busy - overruns - are exercised on the real code, see checks/c12.py)
 \* 1: one-shot, 2: periodic, 3: periodic that re-registers 1 on every call, 4: one-shot that removes 2 and itself
-MC_Scripts == << [ret |-> FALSE, ops |-> <<>>],
-                 [ret |-> TRUE,  ops |-> <<>>],
-                 [ret |-> TRUE,  ops |-> << [op |-> "add", cb |-> 1, delta |-> 2] >>],
-                 [ret |-> FALSE, ops |-> << [op |-> "remove", cb |-> 2], [op |-> "remove", cb |-> 4] >>] >>
+MC_Scripts == << [ret |-> FALSE, ops |-> <<>>, busy |-> 0],
+                 [ret |-> TRUE,  ops |-> <<>>, busy |-> 0],
+                 [ret |-> TRUE,  ops |-> << [op |-> "add", cb |-> 1, delta |-> 2] >>, busy |-> 0],
+                 [ret |-> FALSE, ops |-> << [op |-> "remove", cb |-> 2], [op |-> "remove", cb |-> 4] >>, busy |-> 0] >>
 =============================================================================
